@@ -75,9 +75,10 @@ deriving Repr, Inhabited
 /-- Python class of an element (decided by `builder.QUESTION_CLASSES` / `SECTION_CLASSES`):
 `question` = base `Question` (`build_xml` returns None), `control` = Input/Trigger/Upload/Range
 question (`build_xml = _build_xml`), `select` = `MultipleChoiceQuestion`, `inert` = a survey element
-that is neither Question nor Section (ExternalInstance, EntityDeclaration), `other` = not modelled. -/
+that is neither Question nor Section (ExternalInstance, EntityDeclaration), `osm` = `OsmUploadQuestion`
+(an upload question whose `Tag` children render a `<tag><label/></tag>` each), `other` = not modelled. -/
 inductive Cls where
-  | question | control | select | group | repeat | inert | other
+  | question | control | select | group | repeat | inert | osm | other
 deriving Repr, DecidableEq, Inhabited
 
 structure ElemD where
@@ -98,6 +99,8 @@ structure ElemD where
   itemset : Option Str
   list : Str
   hasChoices : Bool
+  /-- `Tag` children of an osm question: (name, label) -/
+  tags : List (Str × Txt) := []
 deriving Repr, Inhabited
 
 inductive Elem where
@@ -395,6 +398,11 @@ def searchItemRefs (lists : List CList) (n : Str) : List Str :=
   | some l => listIds l
   | none => []
 
+/-- `Tag.xml` (question.py:499-500): `xml_label` of each tag; a `Tag` has no media slot, so an itext ref is
+emitted exactly when its label is a dict.  Its xpath is the question's xpath plus the tag name. -/
+def tagRefs (f : Flat) : List Str :=
+  f.d.tags.flatMap fun nl => if nl.2.isDict then [path (f.xpath ++ '/' :: nl.1) "label"] else []
+
 /-- `jr:itext('…')` ids in the body contributed by one element -/
 def bodyRefs (lists : List CList) (f : Flat) : List Str :=
   if f.hidden then [] else
@@ -402,6 +410,7 @@ def bodyRefs (lists : List CList) (f : Flat) : List Str :=
   | .group => if f.d.label.truthy then labelRef f else []
   | .repeat => labelRef f
   | .control => if hasControl f.d then labelAndHint f else []
+  | .osm => if hasControl f.d then labelAndHint f ++ tagRefs f else []
   | .select =>
     if hasControl f.d then
       labelAndHint f ++ (if isSearch f.d then searchItemRefs lists f.d.list else [])
@@ -428,7 +437,7 @@ def itemIds (lists : List CList) (fs : List Flat) : List Str :=
 
 def labelErrors (f : Flat) : List String :=
   let d := f.d
-  let rendered := !f.hidden && (d.cls == .control || d.cls == .select) && hasControl d
+  let rendered := !f.hidden && (d.cls == .control || d.cls == .select || d.cls == .osm) && hasControl d
   if !rendered then [] else
   (if !(d.label.truthy || mediaTruthy d.media || d.hint.truthy || d.guidance.truthy)
     then ["noLabelOrHint"] else []) ++
@@ -543,6 +552,11 @@ def optLabeled (o : Opt) : Bool := o.label.truthy || mediaTruthy o.media
 /-- complement of the open defect F6: in a list that requires itext every choice has a label or media -/
 def choicesLabeled (x : Survey) : Bool :=
   x.lists.all fun l => !requiresItext l || l.options.all optLabeled
+
+/-- complement of the open defect F45: no osm tag has a translated (dict) label — the tags' labels are
+rendered with `xml_label` but `_setup_translations` never visits `Tag` elements -/
+def tagsPlain (x : Survey) : Bool :=
+  (flats x).all fun f => f.d.tags.all fun nl => !nl.2.isDict
 
 /-! ### the property, as a decidable predicate on an observation (model's or implementation's) -/
 
